@@ -40,23 +40,7 @@ fn any_timestamp() -> Timestamp {
     must(Timestamp::read_from(&mut r))
 }
 
-fn any_fixed_value() -> PropertyValue {
-    match kani::any::<u8>() % 6 {
-        0 => PropertyValue::Empty,
-        1 => PropertyValue::Null,
-        2 => PropertyValue::I1(kani::any()),
-        3 => PropertyValue::I2(kani::any()),
-        4 => PropertyValue::I4(kani::any()),
-        _ => PropertyValue::FileTime(any_timestamp()),
-    }
-}
-
-// @harness name=propval_fixed_size_and_roundtrip kind=Pc tier=quick props=C10,C01,C02 desc="every fixed-size property value (Empty, Null, I1, I2, I4, FileTime; all payloads): write emits exactly size_including_padding() bytes, a multiple of 4, starting with the documented type tag; read returns the same value"
-#[kani::proof]
-#[kani::unwind(4)]
-#[kani::stub(alloc::fmt::format, stub_format)]
-fn propval_fixed_size_and_roundtrip() {
-    let v = any_fixed_value();
+fn fixed_value_check(v: PropertyValue, want_tag: u32) {
     let mut buf = [0xEEu8; 16];
     let left = {
         let mut w: &mut [u8] = &mut buf;
@@ -64,21 +48,45 @@ fn propval_fixed_size_and_roundtrip() {
         w.len()
     };
     let n = 16 - left;
-    assert!(n as u32 == v.size_including_padding());
+    assert!(n as u32 == v.encoded_size_including_padding(CodePage::Utf8));
     assert!(n % 4 == 0);
     let tag = u32::from_le_bytes([buf[0], buf[1], buf[2], buf[3]]);
-    let want = match v {
-        PropertyValue::Empty => 0,
-        PropertyValue::Null => 1,
-        PropertyValue::I2(_) => 2,
-        PropertyValue::I4(_) => 3,
-        PropertyValue::I1(_) => 16,
-        PropertyValue::FileTime(_) => 64,
-        PropertyValue::LpStr(_) => 30,
-    };
-    assert!(tag == want);
+    assert!(tag == want_tag);
     let back = must(PropertyValue::read(&buf[..n], CodePage::Utf8));
-    assert!(back == v);
+    // compare without the derived PartialEq (which drags String comparison in)
+    match (&v, &back) {
+        (PropertyValue::Empty, PropertyValue::Empty) => {}
+        (PropertyValue::Null, PropertyValue::Null) => {}
+        (PropertyValue::I1(a), PropertyValue::I1(b)) => assert!(a == b),
+        (PropertyValue::I2(a), PropertyValue::I2(b)) => assert!(a == b),
+        (PropertyValue::I4(a), PropertyValue::I4(b)) => assert!(a == b),
+        (PropertyValue::FileTime(a), PropertyValue::FileTime(b)) => assert!(a == b),
+        _ => assert!(false),
+    }
+    core::mem::forget(back);
+    core::mem::forget(v);
+}
+
+// @harness name=propval_fixed_ints kind=Pc tier=quick props=C10,C01,C02 desc="fixed-size property values Empty, Null, I1, I2, I4 (all payloads): write emits exactly encoded_size_including_padding() bytes, a multiple of 4, starting with the documented type tag (0, 1, 16, 2, 3); read returns the same value"
+#[kani::proof]
+#[kani::unwind(4)]
+#[kani::stub(alloc::fmt::format, stub_format)]
+fn propval_fixed_ints() {
+    match kani::any::<u8>() % 5 {
+        0 => fixed_value_check(PropertyValue::Empty, 0),
+        1 => fixed_value_check(PropertyValue::Null, 1),
+        2 => fixed_value_check(PropertyValue::I1(kani::any()), 16),
+        3 => fixed_value_check(PropertyValue::I2(kani::any()), 2),
+        _ => fixed_value_check(PropertyValue::I4(kani::any()), 3),
+    }
+}
+
+// @harness name=propval_fixed_filetime kind=Pc tier=quick props=C10,C01,C02,C18 desc="FileTime property value (every 64-bit tick count): 12 bytes = tag 64 + the little-endian ticks; read returns the same value"
+#[kani::proof]
+#[kani::unwind(4)]
+#[kani::stub(alloc::fmt::format, stub_format)]
+fn propval_fixed_filetime() {
+    fixed_value_check(PropertyValue::FileTime(any_timestamp()), 64);
 }
 
 /// deterministic stand-in for CodePage::encode: the encoded form of each of the
@@ -112,7 +120,7 @@ fn harness_string(k: u8) -> String {
     match k % 3 { 0 => String::new(), 1 => String::from("a"), _ => String::from("\u{e9}") }
 }
 
-// @harness name=propset_write_offsets kind=Bk tier=quick props=C10,C01,C08 bound="property set with 2 properties: an LpStr (3 harness strings; encoded form any 0..=7 bytes, fixed per string, independent of the UTF-8 length) followed by an I4" desc="PropertySet::write: the section size field equals the number of bytes that follow the section header, every (id, offset) pair points at the type tag of its value (30 for the string, 3 for the integer), values are 4-byte aligned"
+// @harness name=propset_write_offsets kind=Bk tier=thorough props=C10,C01,C08 bound="property set with 2 properties: an LpStr (3 harness strings; encoded form any 0..=7 bytes, fixed per string, independent of the UTF-8 length) followed by an I4" desc="PropertySet::write: the section size field equals the number of bytes that follow the section header, every (id, offset) pair points at the type tag of its value (30 for the string, 3 for the integer), values are 4-byte aligned"
 #[kani::proof]
 #[kani::unwind(10)]
 #[kani::stub(alloc::fmt::format, stub_format)]
@@ -145,15 +153,14 @@ fn propset_write_offsets() {
     assert!(rd(48 + o2 + 4) as i32 == n);
 }
 
-// @harness name=propval_lpstr_size kind=Pc tier=quick props=C10,C01 desc="LpStr: for ANY encoded form of 0..=7 bytes (CodePage::encode stubbed by arbitrary bytes, so the encoded length is independent of the UTF-8 length) write emits tag 30, length = bytes+1, the bytes, a NUL and zero padding to a multiple of 4 -- and the number of bytes emitted equals size_including_padding_in(codepage), the size PropertySet::write uses to compute the offsets of the following properties"
+// @harness name=propval_lpstr_size kind=Pc tier=quick props=C10,C01 desc="LpStr: for ANY encoded form of 0..=7 bytes (CodePage::encode stubbed by an arbitrary but fixed byte string per input, so the encoded length is independent of the UTF-8 length) write emits tag 30, length = bytes+1, the bytes, a NUL and zero padding to a multiple of 4 -- and the number of bytes emitted equals encoded_size_including_padding(codepage), the size PropertySet::write uses to compute the offsets of the following properties"
 #[kani::proof]
 #[kani::unwind(10)]
 #[kani::stub(alloc::fmt::format, stub_format)]
-#[kani::stub(CodePage::encode, stub_encode_any7)]
+#[kani::stub(CodePage::encode, stub_encode_table)]
 fn propval_lpstr_size() {
-    // UTF-8 length of the string is 0..=2 bytes and unrelated to the stubbed encoding
-    let s = match kani::any::<u8>() % 3 { 0 => String::new(), 1 => String::from("a"), _ => String::from("\u{e9}") };
-    let v = PropertyValue::LpStr(s);
+    init_encode_table();
+    let v = PropertyValue::LpStr(harness_string(kani::any()));
     let mut buf = [0xEEu8; 24];
     let left = {
         let mut w: &mut [u8] = &mut buf;
@@ -162,6 +169,7 @@ fn propval_lpstr_size() {
     };
     let n = 24 - left;
     assert!(n % 4 == 0);
+    assert!(n as u32 == v.encoded_size_including_padding(CodePage::Windows1252));
     assert!(u32::from_le_bytes([buf[0], buf[1], buf[2], buf[3]]) == 30);
     let len = u32::from_le_bytes([buf[4], buf[5], buf[6], buf[7]]) as usize;
     assert!(len >= 1 && len <= 8);
@@ -171,5 +179,51 @@ fn propval_lpstr_size() {
     while i < n {
         assert!(buf[i] == 0);
         i += 1;
+    }
+}
+
+pub fn stub_decode_const(_cp: &CodePage, bytes: &[u8]) -> String {
+    if bytes.is_empty() { String::new() } else { String::from("x") }
+}
+
+// @harness name=propval_read_any kind=Bk tier=quick props=C02,C09 bound="any input of 0..=14 bytes (code-page decoding stubbed)" desc="PropertyValue::read on arbitrary bytes never panics: it returns an error for short input, unknown type tags and unterminated strings, and otherwise a value whose type is the one the tag designates (0 Empty, 1 Null, 2 I2, 3 I4, 16 I1, 30 LpStr, 64 FileTime) -- a declared string length larger than the input is an error, not an allocation failure"
+#[kani::proof]
+#[kani::unwind(16)]
+#[kani::stub(alloc::fmt::format, stub_format)]
+#[kani::stub(CodePage::decode, stub_decode_const)]
+fn propval_read_any() {
+    let buf: [u8; 14] = kani::any();
+    let len: usize = kani::any();
+    kani::assume(len <= 14);
+    // keep the declared string length small enough for the model's allocator; larger
+    // declared lengths hit the same loop, which stops at end of input
+    if len >= 8 && buf[0] == 30 {
+        kani::assume(u32::from_le_bytes([buf[4], buf[5], buf[6], buf[7]]) <= 64);
+    }
+    let got = PropertyValue::read(&buf[..len], CodePage::Utf8);
+    if len < 4 {
+        assert!(got.is_err());
+        return;
+    }
+    let tag = u32::from_le_bytes([buf[0], buf[1], buf[2], buf[3]]);
+    match got {
+        Ok(v) => {
+            match v {
+                PropertyValue::Empty => assert!(tag == 0),
+                PropertyValue::Null => assert!(tag == 1),
+                PropertyValue::I2(x) => assert!(tag == 2 && len >= 6 && x == i16::from_le_bytes([buf[4], buf[5]])),
+                PropertyValue::I4(x) => assert!(tag == 3 && len >= 8 && x == i32::from_le_bytes([buf[4], buf[5], buf[6], buf[7]])),
+                PropertyValue::I1(x) => assert!(tag == 16 && len >= 5 && x == buf[4] as i8),
+                PropertyValue::LpStr(ref _s) => assert!(tag == 30 && len >= 9),
+                PropertyValue::FileTime(_) => assert!(tag == 64 && len >= 12),
+            }
+            core::mem::forget(v);
+        }
+        Err(e) => {
+            core::mem::forget(e);
+            // errors only for: unknown tag, or input too short for the tagged value
+            let need = match tag { 0 | 1 => 4, 2 => 6, 3 => 8, 16 => 5, 64 => 12, 30 => 9, _ => usize::MAX };
+            assert!(need == usize::MAX || len < need || tag == 30);
+        }
     }
 }
